@@ -27,3 +27,10 @@ func NewGramTokenizer(splitChars string, seed uint64, version uint32) Tokenizer 
 func FreeSimpleGramTokenizer(t Tokenizer) {
 	t.FreeSimpleGramTokenizer()
 }
+
+// NewPhraseTokenizer returns the tokenizer a MATCHPHRASE phrase is looked up by in a bloom filter. The filter data of
+// this build (ProcessTokenizerBatch of the Go tokenizers) holds single tokens only, no multi-token grams, so a phrase is
+// looked up token by token.
+func NewPhraseTokenizer(splitTable []byte, version uint32, defaultNilSplit uint8) Tokenizer {
+	return NewSimpleUtf8Tokenizer(splitTable)
+}
